@@ -36,6 +36,10 @@ ConcatStr(ss) == IF Len(ss) = 0 THEN "" ELSE ss[1] \o ConcatStr(Tail(ss))
 RECURSIVE JoinStr(_, _)
 JoinStr(ss, sep) == IF Len(ss) = 0 THEN "" ELSE IF Len(ss) = 1 THEN ss[1] ELSE ss[1] \o sep \o JoinStr(Tail(ss), sep)
 
+\* TLC evaluates a function constructor [i \in S |-> e] lazily -- and again at every application.  T forces it
+\* into a tuple once (concatenation is implemented on tuples).
+T(f) == f \o <<>>
+
 RECURSIVE Flat(_)
 Flat(ss) == IF Len(ss) = 0 THEN <<>> ELSE ss[1] \o Flat(Tail(ss))
 
@@ -89,15 +93,15 @@ Ancestors0(r, n) ==
 \* all properties in declaration order: inherited (in the order of the bases) then own
 RECURSIVE AllProps0(_, _)
 AllProps0(r, n) ==
-    LET c == RawClass(r, n) IN Flat([i \in 1..Len(c.bases) |-> AllProps0(r, c.bases[i])]) \o c.props
+    LET c == RawClass(r, n) IN Flat(T([i \in 1..Len(c.bases) |-> AllProps0(r, c.bases[i])])) \o c.props
 RECURSIVE AllDefaults0(_, _)
 AllDefaults0(r, n) ==
-    LET c == RawClass(r, n) IN Flat([i \in 1..Len(c.bases) |-> AllDefaults0(r, c.bases[i])]) \o c.defaults
+    LET c == RawClass(r, n) IN Flat(T([i \in 1..Len(c.bases) |-> AllDefaults0(r, c.bases[i])])) \o c.defaults
 ConcreteOf0(r, n) == {c \in RawNames(r) : ~RawClass(r, c).abstract /\ (c = n \/ n \in Ancestors0(r, c))}
 
 (* prepared model: the raw one plus, per class, everything derived (computed once) *)
 PrepProp(p) == [name |-> p.name, src |-> p.name.src, key |-> LowerCamel(p.name), type |-> p.type, opt |-> p.opt]
-PrepProps(ps) == [i \in 1..Len(ps) |-> PrepProp(ps[i])]
+PrepProps(ps) == T([i \in 1..Len(ps) |-> PrepProp(ps[i])])
 ClassInfo(r, n) ==
     [name |-> RawClass(r, n).name,
      abstract |-> RawClass(r, n).abstract,
@@ -184,16 +188,16 @@ ChildrenOfField(n, v) ==
     CASE v.k = "inst" -> << [step |-> <<n, 0>>, v |-> v] >>
       [] v.k = "list" -> SelectSeq([j \in 1..Len(v.items) |-> [step |-> <<n, j>>, v |-> v.items[j]]], LAMBDA e : e.v.k = "inst")
       [] OTHER -> <<>>
-Children(x) == Flat([i \in 1..Len(x.fields) |-> ChildrenOfField(x.fields[i].n, x.fields[i].v)])
+Children(x) == Flat(T([i \in 1..Len(x.fields) |-> ChildrenOfField(x.fields[i].n, x.fields[i].v)]))
 
 \* directly nested instances, in property order and list order
-DescendOncePaths1(ch) == [i \in 1..Len(ch) |-> <<ch[i].step>>]
+DescendOncePaths1(ch) == T([i \in 1..Len(ch) |-> <<ch[i].step>>])
 DescendOncePaths(x) == DescendOncePaths1(Children(x))
 
 \* all transitively nested instances, pre-order
 RECURSIVE DescendPaths(_)
-Prefixed(p, paths) == [i \in 1..Len(paths) |-> p \o paths[i]]
-DescendPaths1(ch) == Flat([i \in 1..Len(ch) |-> << <<ch[i].step>> >> \o Prefixed(<<ch[i].step>>, DescendPaths(ch[i].v))])
+Prefixed(p, paths) == T([i \in 1..Len(paths) |-> p \o paths[i]])
+DescendPaths1(ch) == Flat(T([i \in 1..Len(ch) |-> << <<ch[i].step>> >> \o Prefixed(<<ch[i].step>>, DescendPaths(ch[i].v))]))
 DescendPaths(x) == DescendPaths1(Children(x))
 
 RECURSIVE NodeAt(_, _)
@@ -267,7 +271,7 @@ MODELTYPE == "modelType"
 
 RECURSIVE ToJ(_, _)
 ToJInst(m, v, ps) ==
-    JObj(Flat([i \in 1..Len(ps) |-> IF v.fields[i].v.k = "none" THEN <<>> ELSE << [key |-> ps[i].key, val |-> ToJ(m, v.fields[i].v)] >>])
+    JObj(Flat(T([i \in 1..Len(ps) |-> IF v.fields[i].v.k = "none" THEN <<>> ELSE << [key |-> ps[i].key, val |-> ToJ(m, v.fields[i].v)] >>]))
          \o (IF Wmt(m, v.cls) THEN << [key |-> MODELTYPE, val |-> JName(m.info[v.cls].mt)] >> ELSE <<>>))
 ToJ(m, v) ==
     CASE v.k = "bool" -> JBool(v.b)
@@ -276,7 +280,7 @@ ToJ(m, v) ==
       [] v.k = "str" -> JStr(v.cps)
       [] v.k = "bytes" -> JStr(B64Enc(v.bs))
       [] v.k = "enum" -> JStr(LitOf(m, v.enum, v.lit).val)
-      [] v.k = "list" -> JArr([i \in 1..Len(v.items) |-> ToJ(m, v.items[i])])
+      [] v.k = "list" -> JArr(T([i \in 1..Len(v.items) |-> ToJ(m, v.items[i])]))
       [] v.k = "inst" -> ToJInst(m, v, AllProps(m, v.cls))
 
 HasKey(doc, key) == \E i \in 1..Len(doc.members) : doc.members[i].key = key
@@ -302,7 +306,7 @@ FromJMember(m, val, p, lenient) ==
 FromJObj3(m, doc, target, lenient, ps) ==
     IF ~lenient /\ \E i \in 1..Len(doc.members) : doc.members[i].key # MODELTYPE /\ \A q \in 1..Len(ps) : ps[q].key # doc.members[i].key
     THEN Reject
-    ELSE FinishInst(target, [i \in 1..Len(ps) |-> [n |-> ps[i].src, v |-> FromJMember(m, MemberOrAbsent(doc, ps[i].key), ps[i], lenient)]])
+    ELSE FinishInst(target, T([i \in 1..Len(ps) |-> [n |-> ps[i].src, v |-> FromJMember(m, MemberOrAbsent(doc, ps[i].key), ps[i], lenient)]]))
 FromJObj2(m, doc, n, lenient, mt, named) ==
     IF NeedsDispatch(m, n) THEN (IF named = {} THEN Reject ELSE FromJObj3(m, doc, AnyOf(named), lenient, AllProps(m, AnyOf(named))))
     ELSE IF lenient \/ (IF Wmt(m, n) THEN named = {n} ELSE mt.j = "absent") THEN FromJObj3(m, doc, n, lenient, AllProps(m, n))
@@ -315,7 +319,7 @@ FromJ(m, doc, t, lenient) ==
       [] t.t = "str" -> IF doc.j = "str" THEN VStr(doc.cps) ELSE Reject
       [] t.t = "bytes" -> IF doc.j = "str" THEN BytesFrom(doc.cps, lenient) ELSE Reject
       [] t.t = "enum" -> IF doc.j = "str" THEN EnumFrom(m, t.name, doc.cps) ELSE Reject
-      [] t.t = "list" -> IF doc.j = "arr" THEN FinishList([i \in 1..Len(doc.items) |-> FromJ(m, doc.items[i], t.item, lenient)]) ELSE Reject
+      [] t.t = "list" -> IF doc.j = "arr" THEN FinishList(T([i \in 1..Len(doc.items) |-> FromJ(m, doc.items[i], t.item, lenient)])) ELSE Reject
       [] t.t = "cls" -> IF doc.j = "obj" THEN FromJObj1(m, doc, t.name, lenient, MemberOrAbsent(doc, MODELTYPE)) ELSE Reject
 
 (* the three-valued verdict *)
@@ -358,9 +362,9 @@ RECURSIVE XSeq(_, _)
 XAsInst(m, v) == XNode(m.info[v.cls].tag, XNoText, XSeq(m, v))
 XProp(m, p, v) ==
     CASE v.k = "inst" -> IF NeedsDispatch(m, p.type.name) THEN XNode(p.key, XNoText, <<XAsInst(m, v)>>) ELSE XNode(p.key, XNoText, XSeq(m, v))
-      [] v.k = "list" -> XNode(p.key, XNoText, [j \in 1..Len(v.items) |-> IF v.items[j].k = "inst" THEN XAsInst(m, v.items[j]) ELSE XNode(ITEM, XText(m, v.items[j]), <<>>)])
+      [] v.k = "list" -> XNode(p.key, XNoText, T([j \in 1..Len(v.items) |-> IF v.items[j].k = "inst" THEN XAsInst(m, v.items[j]) ELSE XNode(ITEM, XText(m, v.items[j]), <<>>)]))
       [] OTHER -> XNode(p.key, XText(m, v), <<>>)
-XSeq1(m, x, ps) == Flat([i \in 1..Len(ps) |-> IF x.fields[i].v.k = "none" THEN <<>> ELSE <<XProp(m, ps[i], x.fields[i].v)>>])
+XSeq1(m, x, ps) == Flat(T([i \in 1..Len(ps) |-> IF x.fields[i].v.k = "none" THEN <<>> ELSE <<XProp(m, ps[i], x.fields[i].v)>>]))
 \* the sequence of property elements of an instance
 XSeq(m, x) == XSeq1(m, x, AllProps(m, x.cls))
 ToX(m, x) == XAsInst(m, x)
@@ -392,9 +396,9 @@ FromXValue(m, e, t, lenient) ==
             ELSE FromXSeq(m, e, t.name, lenient)
       [] t.t = "list" ->
             IF e.ns # "ok" \/ ~BlankText(e.text) THEN Reject
-            ELSE FinishList([j \in 1..Len(e.kids) |->
+            ELSE FinishList(T([j \in 1..Len(e.kids) |->
                     IF t.item.t = "cls" THEN FromXAsInst(m, e.kids[j], t.item.name, lenient)
-                    ELSE IF e.kids[j].tag = ITEM THEN FromXText(m, e.kids[j], t.item, lenient) ELSE Reject])
+                    ELSE IF e.kids[j].tag = ITEM THEN FromXText(m, e.kids[j], t.item, lenient) ELSE Reject]))
       [] OTHER -> FromXText(m, e, t, lenient)
 \* the last element with the tag of property p (a lenient reader lets the last one win), or none
 FromXField1(m, mine, kids, p, lenient) ==
@@ -408,8 +412,8 @@ FromXSeq2(m, node, c, lenient, ps, idx) ==      \* idx[k]: PropIndex of the k-th
     ELSE IF \E k \in 1..Len(node.kids) : node.kids[k].ns # "ok" THEN Reject
     \* strict: known elements only, in schema order (xs:sequence), hence no duplicates
     ELSE IF ~lenient /\ (\E k \in 1..Len(idx) : idx[k] = 0 \/ (k > 1 /\ idx[k - 1] >= idx[k])) THEN Reject
-    ELSE FinishInst(c, [i \in 1..Len(ps) |-> [n |-> ps[i].src, v |-> FromXField(m, node.kids, ps[i], lenient)]])
-FromXSeq1(m, node, c, lenient, ps) == FromXSeq2(m, node, c, lenient, ps, [k \in 1..Len(node.kids) |-> PropIndex(ps, node.kids[k].tag)])
+    ELSE FinishInst(c, T([i \in 1..Len(ps) |-> [n |-> ps[i].src, v |-> FromXField(m, node.kids, ps[i], lenient)]]))
+FromXSeq1(m, node, c, lenient, ps) == FromXSeq2(m, node, c, lenient, ps, T([k \in 1..Len(node.kids) |-> PropIndex(ps, node.kids[k].tag)]))
 \* node holds the property elements of an instance of the concrete class c
 FromXSeq(m, node, c, lenient) == FromXSeq1(m, node, c, lenient, AllProps(m, c))
 
@@ -439,7 +443,7 @@ XmlRepresentable(m, v) ==
 
 Mut(kind, at, doc) == [kind |-> kind, at |-> at, doc |-> doc]
 \* lift the mutants of a sub-document into the enclosing document
-Lift(sub, Put(_)) == [q \in 1..Len(sub) |-> Mut(sub[q].kind, sub[q].at, Put(sub[q].doc))]
+Lift(sub, Put(_)) == T([q \in 1..Len(sub) |-> Mut(sub[q].kind, sub[q].at, Put(sub[q].doc))])
 
 BADB64 == << <<65>>, <<65, 65, 65>>, <<65, 42, 65, 61>>, <<65, 65, 61, 61, 65, 65, 65, 65>>, <<65, 233, 65, 65>>, <<61, 61, 61, 61>>, <<65, 82, 61, 61>>, <<65, 65, 32, 65, 65>> >>
 \*            "A"     "AAA"          "A*A="              "AA==AAAA"                         "AéAA"                "===="              "AR==" (bits)       "AA AA"
@@ -451,7 +455,7 @@ FitsJson(t, d) ==
       [] t.t = "str" -> d.j = "str"
       [] t.t = "list" -> d = JArr(<<>>)
       [] OTHER -> FALSE
-WrongJson1(t, ds) == [i \in 1..Len(ds) |-> Mut("Wrong_json_type", t.t, ds[i])]
+WrongJson1(t, ds) == T([i \in 1..Len(ds) |-> Mut("Wrong_json_type", t.t, ds[i])])
 WrongJson(t) == WrongJson1(t, SelectSeq(JWRONG, LAMBDA d : ~FitsJson(t, d)))
 
 RECURSIVE JMutants(_, _, _)
@@ -461,24 +465,24 @@ JObjMutants(m, doc, t, c, ps, mem, where, others) ==
         propOf(i) == ps[CHOOSE q \in 1..Len(ps) : ps[q].key = mem[i].key]
         put(i, v) == JObj(ReplaceAt(mem, i, [key |-> mem[i].key, val |-> v]))
     IN  \* drop a member
-        Flat([i \in 1..Len(mem) |->
+        Flat(T([i \in 1..Len(mem) |->
                 IF isMt(i) THEN << Mut("Missing_modelType", where, JObj(RemoveAt(mem, i))) >>
                 ELSE IF ~isProp(i) THEN <<>>
                 ELSE IF propOf(i).opt THEN << Mut("Drop_optional", propOf(i).type.t, JObj(RemoveAt(mem, i))) >>
-                ELSE << Mut("Drop_required", propOf(i).type.t, JObj(RemoveAt(mem, i))) >>])
+                ELSE << Mut("Drop_required", propOf(i).type.t, JObj(RemoveAt(mem, i))) >>]))
         \* null for a member
-        \o Flat([i \in 1..Len(mem) |->
+        \o Flat(T([i \in 1..Len(mem) |->
                 IF isMt(i) THEN << Mut("Wrong_modelType", where \o "_null", put(i, JNull)) >>
                 ELSE IF ~isProp(i) \/ mem[i].val.j = "null" THEN <<>>
                 ELSE IF propOf(i).opt THEN << Mut("Null_for_optional", propOf(i).type.t, put(i, JNull)) >>
-                ELSE << Mut("Null_for_required", propOf(i).type.t, put(i, JNull)) >>])
+                ELSE << Mut("Null_for_required", propOf(i).type.t, put(i, JNull)) >>]))
         \* wrong modelType
-        \o Flat([i \in 1..Len(mem) |->
+        \o Flat(T([i \in 1..Len(mem) |->
                 IF ~isMt(i) THEN <<>>
-                ELSE [q \in 1..Len(others) |-> Mut("Wrong_modelType", where \o "_other_class", put(i, JName(others[q])))]
+                ELSE T([q \in 1..Len(others) |-> Mut("Wrong_modelType", where \o "_other_class", put(i, JName(others[q])))])
                      \o << Mut("Wrong_modelType", where \o "_unknown", put(i, JName("Bogus"))),
                            Mut("Wrong_modelType", where \o "_not_a_string", put(i, JNum(TRUE, "1"))),
-                           Mut("Wrong_modelType", where \o "_lower_case", put(i, JName(m.info[c].tag))) >>])
+                           Mut("Wrong_modelType", where \o "_lower_case", put(i, JName(m.info[c].tag))) >>]))
         \* extra members
         \o (IF HasKey(doc, "bogusProperty") THEN <<>>
             ELSE << Mut("Extra_property", "unknown_key", JObj(Append(mem, [key |-> "bogusProperty", val |-> JNum(TRUE, "1")]))),
@@ -487,9 +491,9 @@ JObjMutants(m, doc, t, c, ps, mem, where, others) ==
         \* truncate the object after its first member / reverse the members (order is irrelevant in JSON)
         \o (IF Len(mem) > 1 THEN << Mut("Truncate", "object", JObj(SubSeq(mem, 1, 1))), Mut("Reorder", "object", JObj(Reverse(mem))) >> ELSE <<>>)
         \* recursion into the members
-        \o Flat([i \in 1..Len(mem) |->
+        \o Flat(T([i \in 1..Len(mem) |->
                 IF ~isProp(i) \/ isMt(i) THEN <<>>
-                ELSE Lift(JMutants(m, mem[i].val, propOf(i).type), LAMBDA d : put(i, d))])
+                ELSE Lift(JMutants(m, mem[i].val, propOf(i).type), LAMBDA d : put(i, d))]))
 \* the concrete class of the serialized instance: named by modelType, else the slot's own class, else any that fits
 JObjMutants2(m, doc, t, c) ==
     JObjMutants(m, doc, t, c, AllProps(m, c), doc.members, IF NeedsDispatch(m, t.name) THEN "dispatch" ELSE "no_dispatch",
@@ -499,12 +503,12 @@ JObjMutants1(m, doc, t, cs) ==
 \* doc stands in a slot of type t
 JMutants(m, doc, t) ==
     WrongJson(t) \o
-    (CASE t.t = "bytes" -> [i \in 1..Len(BADB64) |-> Mut("Bad_base64", "bytes", JStr(BADB64[i]))]
+    (CASE t.t = "bytes" -> T([i \in 1..Len(BADB64) |-> Mut("Bad_base64", "bytes", JStr(BADB64[i]))])
       [] t.t = "float" -> << Mut("Int_for_float", "float", JNum(TRUE, "2")) >>
       [] t.t = "enum" /\ doc.j = "str" ->
             << Mut("Bad_enum_text", "enum", JStr(doc.cps \o <<32>>)), Mut("Bad_enum_text", "enum", JStr(<<32>> \o doc.cps)), Mut("Bad_enum_text", "enum", JStr(<<0>>)) >>
       [] t.t = "list" /\ doc.j = "arr" ->
-            Flat([i \in 1..Len(doc.items) |-> Lift(JMutants(m, doc.items[i], t.item), LAMBDA d : JArr(ReplaceAt(doc.items, i, d)))])
+            Flat(T([i \in 1..Len(doc.items) |-> Lift(JMutants(m, doc.items[i], t.item), LAMBDA d : JArr(ReplaceAt(doc.items, i, d)))]))
             \o (IF Len(doc.items) > 0 THEN << Mut("Truncate", "list", JArr(SubSeq(doc.items, 1, Len(doc.items) - 1))),
                                              Mut("Null_item", "list", JArr(ReplaceAt(doc.items, 1, JNull))) >> ELSE <<>>)
             \o (IF Len(doc.items) > 1 THEN << Mut("Swap_items", "list", JArr(SwapAt(doc.items, 1, 2))) >> ELSE <<>>)
@@ -523,10 +527,10 @@ XWrongText(t) ==
     CASE t.t = "bool" -> << XCps(<<121, 101, 115>>), XTok("int", "2"), XNoText, XCps(<<84, 114, 117, 101>>) >>          \* "yes", 2, nothing, "True"
       [] t.t = "int" -> << XCps(<<120>>), XTok("float", "1.5"), XNoText, XTok("bool", "true") >>
       [] t.t = "float" -> << XCps(<<120>>), XNoText, XTok("bool", "true"), XCps(<<49, 44, 53>>) >>                      \* "x", nothing, true, "1,5"
-      [] t.t = "bytes" -> [i \in 1..Len(BADB64) |-> XCps(BADB64[i])]
+      [] t.t = "bytes" -> T([i \in 1..Len(BADB64) |-> XCps(BADB64[i])])
       [] t.t = "enum" -> << XCps(<<126, 110, 111, 126>>), XTok("int", "1") >>
       [] OTHER -> <<>>
-XWrongTexts(e, t, texts) == [q \in 1..Len(texts) |-> Mut(IF t.t = "bytes" THEN "Bad_base64" ELSE "Wrong_text", t.t, [e EXCEPT !.text = texts[q]])]
+XWrongTexts(e, t, texts) == T([q \in 1..Len(texts) |-> Mut(IF t.t = "bytes" THEN "Bad_base64" ELSE "Wrong_text", t.t, [e EXCEPT !.text = texts[q]])])
 
 RECURSIVE XSeqMutants(_, _, _)
 RECURSIVE XValueMutants(_, _, _)
@@ -537,7 +541,7 @@ XDispatchMutants(m, e, inner, c, others) ==
           Mut("Wrong_discriminator", "model_type_case", [e EXCEPT !.kids = <<[inner EXCEPT !.tag = m.info[c].mt]>>]),
           Mut("Two_discriminators", "dispatch", [e EXCEPT !.kids = <<inner, inner>>]),
           Mut("Wrong_namespace", "discriminator", [e EXCEPT !.kids = <<[inner EXCEPT !.ns = "other"]>>]) >>
-    \o [q \in 1..Len(others) |-> Mut("Wrong_discriminator", "other_class", [e EXCEPT !.kids = <<[inner EXCEPT !.tag = others[q]]>>])]
+    \o T([q \in 1..Len(others) |-> Mut("Wrong_discriminator", "other_class", [e EXCEPT !.kids = <<[inner EXCEPT !.tag = others[q]]>>])])
 \* e is the property (or item) element of a value of type t; result: mutated elements
 XValueMutants(m, e, t) ==
     CASE t.t = "cls" ->
@@ -546,11 +550,11 @@ XValueMutants(m, e, t) ==
             ELSE XDispatchMutants(m, e, e.kids[1], ConcreteNamed(m, e.kids[1].tag, t.name),
                                   SetToSeq({m.info[d].tag : d \in ClassNames(m) \ {ConcreteNamed(m, e.kids[1].tag, t.name)}}))
       [] t.t = "list" ->
-            Flat([j \in 1..Len(e.kids) |->
+            Flat(T([j \in 1..Len(e.kids) |->
                 Lift(IF t.item.t = "cls"
                      THEN (IF NamesConcrete(m, e.kids[j].tag, t.item.name) THEN XSeqMutants(m, e.kids[j], ConcreteNamed(m, e.kids[j].tag, t.item.name)) ELSE <<>>)
                      ELSE XValueMutants(m, e.kids[j], t.item),
-                     LAMBDA d : [e EXCEPT !.kids = ReplaceAt(e.kids, j, d)])])
+                     LAMBDA d : [e EXCEPT !.kids = ReplaceAt(e.kids, j, d)])]))
             \o << Mut("Text_in_element_only", "list", [e EXCEPT !.text = XCps(<<120>>)]),
                   Mut("Whitespace_text", "list", [e EXCEPT !.text = XCps(<<10, 32>>)]),
                   Mut("Unknown_item", t.item.t, [e EXCEPT !.kids = Append(e.kids, BOGUS)]) >>
@@ -566,10 +570,10 @@ XValueMutants(m, e, t) ==
 XSeqMutants1(m, node, c, ps, kids) ==
     LET isProp(k) == \E q \in 1..Len(ps) : ps[q].key = kids[k].tag
         propOf(k) == ps[CHOOSE q \in 1..Len(ps) : ps[q].key = kids[k].tag]
-    IN  Flat([k \in 1..Len(kids) |->
+    IN  Flat(T([k \in 1..Len(kids) |->
             IF ~isProp(k) THEN <<>>
             ELSE IF propOf(k).opt THEN << Mut("Drop_optional", propOf(k).type.t, [node EXCEPT !.kids = RemoveAt(kids, k)]) >>
-            ELSE << Mut("Drop_required", propOf(k).type.t, [node EXCEPT !.kids = RemoveAt(kids, k)]) >>])
+            ELSE << Mut("Drop_required", propOf(k).type.t, [node EXCEPT !.kids = RemoveAt(kids, k)]) >>]))
         \o (IF \E k \in 1..Len(kids) : kids[k].tag = BOGUS.tag THEN <<>>
             ELSE << Mut("Unknown_element", "property", [node EXCEPT !.kids = Append(kids, BOGUS)]),
                     Mut("Unknown_element", "property_first", [node EXCEPT !.kids = <<BOGUS>> \o kids]) >>)
@@ -579,9 +583,9 @@ XSeqMutants1(m, node, c, ps, kids) ==
                                      Mut("Misplaced_element", "duplicated", [node EXCEPT !.kids = Append(kids, kids[1])]) >> ELSE <<>>)
         \o (IF Len(kids) > 0 THEN << Mut("Wrong_namespace", "property", [node EXCEPT !.kids = ReplaceAt(kids, 1, [kids[1] EXCEPT !.ns = "other"])]),
                                      Mut("Wrong_namespace", "property_none", [node EXCEPT !.kids = ReplaceAt(kids, Len(kids), [kids[Len(kids)] EXCEPT !.ns = "none"])]) >> ELSE <<>>)
-        \o Flat([k \in 1..Len(kids) |->
+        \o Flat(T([k \in 1..Len(kids) |->
                 IF ~isProp(k) THEN <<>>
-                ELSE Lift(XValueMutants(m, kids[k], propOf(k).type), LAMBDA d : [node EXCEPT !.kids = ReplaceAt(kids, k, d)])])
+                ELSE Lift(XValueMutants(m, kids[k], propOf(k).type), LAMBDA d : [node EXCEPT !.kids = ReplaceAt(kids, k, d)])]))
 \* node holds the property elements of an instance of concrete class c
 XSeqMutants(m, node, c) == XSeqMutants1(m, node, c, AllProps(m, c), node.kids)
 
